@@ -226,7 +226,10 @@ def step1 (w : W) (op impl : String) : W × String × Verdict :=
     let r := execSigned s b
     let s' := match r with | .ok s' => s' | .error _ => s
     let w' := setNode w n s'
-    let expected := pre' ++ "R" ++ code r ++ " " ++ digest s'
+    -- WHICH check refuses a block is not part of any property (only that it is refused and leaves no trace):
+    -- two different refusal reasons count as agreement, so a reordering of independent checks is not an alarm
+    let rcode := if implRes != "ok" && code r != "ok" then implRes else code r
+    let expected := pre' ++ "R" ++ rcode ++ " " ++ digest s'
     -- C05: a block the publisher just made must be accepted by any node holding the same chain
     let headHh := (s.chain.getLast?.map (·.hh)).getD ""
     let c05 := match w.made with
